@@ -12,6 +12,10 @@ checks = {
    text="Seeded deterministic simulation: every internal/atomic Get/Load/Store/CAS of every registering, completing and observing task is a scheduling point chosen from one PRNG; spawned executor goroutines are tasks of the same scheduler. Oracles at quiescence: exactly one completion call returned true, Value/observers saw exactly its result and completion is stable, every registered callback ran exactly once (per its filter) with that result and not before completion, nothing is left runnable/blocked; zero-value Promise/Future never complete, ignore registrations and do not panic. Sampling of interleavings, not proof.",
    note="Trusted: Go's sync/atomic below internal/atomic.Value, sequential execution between two atomic steps, harness executors never drop or duplicate a runnable. Not covered: promise.WithTimeout / future.Await (real timers, not named by the property).",
    technique="deterministic simulation: seeded scheduler over atomic-step yield hooks + spawn seam, quiescence oracles, trace shrinking"),
+ "C19": dict(cat="exploration", design="DESIGN.md §4 C19",
+   text="Seeded deterministic simulation of 2-4 client tasks on one CopyOnWriteMap (3 keys, unique written values), interleaved at the entry of load()/copyOnWrite(), inside the lock, before the snapshot store, and inside stalled user callbacks (tasks then really block on the library mutex; detected from the Go runtime's wait reason). The recorded invoke/return history (stamps = scheduler step numbers, intervals only ever widened) is checked with porcupine against a sequential map specification that also pins what UpdatedWith's remap observed; any panic inside an operation is a violation; ComputeIfAbsent-only keys are cross-checked directly. Sampling of interleavings and histories, not proof.",
+   note="Trusted: sync.Mutex, sync/atomic.Value, porcupine's Illegal verdict (Unknown is counted, never reported). Interleavings inside one Go map copy are not explored (no yield point there).",
+   technique="deterministic simulation: seeded scheduler over hook points + stalled-callback faults, linearizability of the recorded history (porcupine) against a sequential model"),
 }
 
 na = {
